@@ -332,6 +332,10 @@ def bounded(b):
         p.add(wrong, 20)
         p.remove(wrong)
         p.add(sc.TimeSignature(6, 8), 20)
+    def start_of_the_upbeat_bar_taken_out_and_put_back(p):
+        m1 = sorted(p.iter_all(sc.Measure), key=lambda m: m.start.t)[0]
+        p.remove(m1, which="start")
+        p.add(m1, start=0)
     for ename, base, edit, direct in (
             ("bars_removed_through_their_time_points_and_an_upbeat_bar_added", lambda: rebar_base(((0, 12), (12, 24), (24, 36))), rebar_through_the_points,
              lambda: rebar_base(((0, 2), (2, 14), (14, 26), (26, 38)))),
@@ -339,6 +343,8 @@ def bounded(b):
              lambda: rebar_base(((0, 2), (2, 14), (14, 26), (26, 38)))),
             ("a_signature_entered_removed_and_entered_again_inside_a_bar", lambda: rebar_base(((0, 16), (16, 32), (32, 48)), sigs=((0, 4, 4),), end=48), entered_removed_entered,
              lambda: rebar_base(((0, 16), (16, 32), (32, 48)), sigs=((0, 4, 4), (20, 6, 8)), end=48)),
+            ("start_of_the_upbeat_bar_taken_out_and_put_back", lambda: rebar_base(((0, 2), (2, 14), (14, 26), (26, 38))), start_of_the_upbeat_bar_taken_out_and_put_back,
+             lambda: rebar_base(((0, 2), (2, 14), (14, 26), (26, 38)))),
             ("the_same_signature_entered_twice_inside_a_bar", lambda: rebar_base(((0, 16), (16, 32), (32, 48)), sigs=((0, 4, 4),), end=48), same_signature_entered_twice,
              lambda: rebar_base(((0, 16), (16, 32), (32, 48)), sigs=((0, 4, 4), (24, 6, 8)), end=48))):
         for mus in (False, True):
